@@ -38,6 +38,7 @@ type STInfo struct {
 type Dir struct {
 	Files   []File
 	Base    []byte   // adapter path: the base GGUF
+	BaseDir []File   // adapter path with Adapter.HFBase: the base as a model directory
 	Kinds   []string // mutation kinds that had an effect ("st:hdrlen", "cfg:set", ...)
 	Changed bool
 	Tokens  int // size of the vocabulary of the unmutated directory
@@ -901,7 +902,15 @@ func Build(c Case) Dir {
 		}
 	}
 	if c.Adapter != nil {
-		d.Base = c10gen.Build(c.Adapter.Base).Data
+		if c.Adapter.HFBase {
+			bc := c
+			bc.Adapter, bc.Muts = nil, nil
+			bd := Build(bc)
+			d.BaseDir = bd.Files
+			d.Bytes += bd.Bytes
+		} else {
+			d.Base = c10gen.Build(c.Adapter.Base).Data
+		}
 	}
 	emit := func(kind string, data []byte) {
 		if m.dropped[kind] {
